@@ -144,7 +144,11 @@ def generate(run_seed, index, tier):
             elif x < 0.92:
                 ops.append(_gate_op(r, n))
             else:
-                ops.append(dict(op='prepare', **prep()))
+                o = dict(op='prepare', **prep())
+                if r.random() < 0.5:
+                    n = r.randint(1, 6)
+                    o['n'] = n
+                ops.append(o)
         ops.append({'op': 'measure', 'S': _rand_subset(r, n), 'pick': r.randrange(64)})
     else:
         n = max(n, 2) if r.random() < 0.8 else n
@@ -163,6 +167,19 @@ def generate(run_seed, index, tier):
                 nmeas += 1
             else:
                 ops.append({'op': 'c_ctrl', 'm': r.randrange(nmeas), 'bit': r.randrange(6), 'g': r.choice(['X', 'Z', 'H']), 'q': [r.randrange(n)]})
+        if r.random() < 0.3:
+            body = []
+            bm = 0
+            for _ in range(r.randint(1, 4)):
+                x = r.random()
+                if x < 0.4:
+                    body.append(_gate_op(r, n, 'c_'))
+                elif x < 0.75 or bm == 0:
+                    body.append({'op': 'c_measure', 'S': _rand_subset(r, n)})
+                    bm += 1
+                else:
+                    body.append({'op': 'c_ctrl', 'm': -1 - r.randrange(bm), 'bit': r.randrange(6), 'g': r.choice(['X', 'Z', 'H']), 'q': [r.randrange(n)]})
+            ops.append({'op': 'c_extend', 'body': body, 'times': r.randint(1, 3)})
         nruns = r.randint(1, 4)
         for k in range(nruns):
             if use_wipe and r.random() < 0.2:
@@ -407,6 +424,8 @@ class Sim:
                 raise Violation('after_fault', 'measure_quantum_vector', 'an interrupted measurement modified the caller state in place')
             return
         bitstr, prob, post = val
+        if np.abs(self.psi - pre).max() > 0:
+            raise Violation('projection', 'measure_quantum_vector', f'the caller-owned input state was modified in place by measuring S={S} (a second measurement of the same input sees a different state)')
         self.log.add('measure', S, [int(b) for b in bitstr], np.round(np.asarray(prob, dtype=np.float64), 9) + 0.0)
         a = self.check_measurement(pre, S, bitstr, prob, post, 'measure_quantum_vector', scripted_pick=pick, sut_prob_for_pick=prob)
         bs = [int(b) for b in bitstr]
@@ -426,6 +445,8 @@ class Sim:
     def step_register(self, world, op):
         k = op['op']
         if k == 'prepare':
+            if 'n' in op:
+                self.n = int(op['n'])  # a register of another width in the same process/run: exercises keyed caches
             self.psi = born.make_state(op['kind'], self.n, op['seed'])
             self.known, self.last = {}, None
             self.log.add('prepare', op['kind'], self.n)
@@ -539,11 +560,15 @@ class Sim:
             hi = max([w - 1] + [x[4].index[0] for x in self.desc if x[0] == 'cc'])
             if lo + d < 0 or hi + d > 5:
                 return
+            ids = [id(x[2]) for x in self.desc if x[0] == 'measure']
+            if len(ids) != len(set(ids)):
+                return  # a MeasureGate shared through extend_circuit cannot be shifted (numqi asserts); unspecified, not claimed
             try:
                 c.shift_qubit_index_(d)
             except Exception as e:
                 raise Violation('unexpected_exception', 'Circuit.shift_qubit_index_', f'{type(e).__name__}: {e}')
             nd = []
+            seen_cc = set()
             for x in self.desc:
                 if x[0] == 'gate':
                     kind, U, ctrl, tgt = x[1]
@@ -551,14 +576,52 @@ class Sim:
                 elif x[0] == 'measure':
                     nd.append(('measure', [q + d for q in x[1]], x[2], x[3]))
                 else:
-                    x[4].index = tuple(q + d for q in x[4].index)  # custom gates are user code: the user shifts them
+                    if id(x[4]) not in seen_cc:
+                        seen_cc.add(id(x[4]))
+                        x[4].index = tuple(q + d for q in x[4].index)  # custom gates are user code: the user shifts them
                     nd.append(x)
             self.desc = nd
             self.bump('shifts')
             self.log.add('shift', d)
             self.shape.append('s')
+        elif k == 'c_extend':
+            # a sub-circuit (rounds of a protocol) appended `times` times with Circuit.extend_circuit: gate objects are shared
+            main_c, main_desc, main_m = self.circ, self.desc, self.mgates
+            sub = nq.sim.Circuit(default_requires_grad=False)
+            sub.register_custom_gate('classical_control_gate', ClassicalControl)
+            self.circ, self.desc = sub, []
+            try:
+                for o in op['body']:
+                    if o['op'] in ('c_gate', 'c_measure', 'c_ctrl'):
+                        self.step_circuit(world, o)
+            finally:
+                sub_desc = self.desc
+                self.circ, self.desc = main_c, main_desc
+            if not sub_desc:
+                return
+            try:
+                for _ in range(int(op['times'])):
+                    main_c.extend_circuit(sub)
+            except Exception as e:
+                raise Violation('unexpected_exception', 'Circuit.extend_circuit', f'{type(e).__name__}: {e}')
+            for _ in range(int(op['times'])):
+                self.desc.extend(sub_desc)
+            self.bump('extends')
+            self.shape.append('e')
         elif k == 'c_run':
             self.do_run(world, op)
+
+    def fill_scripts(self, picks):
+        """one scheduler pick per *execution* of a scripted measure gate, in circuit order (a gate object shared through
+        extend_circuit is executed several times per run and pops its picks in that order)"""
+        gates = {}
+        j = 0
+        for x in self.desc:
+            if x[0] == 'measure' and x[3]:
+                gates.setdefault(id(x[2]), (x[2], []))[1].append(picks[j % len(picks)])
+                j += 1
+        for g, lst in gates.values():
+            g.np_rng.script[:] = lst
 
     def do_run(self, world, op):
         c = self.circ
@@ -569,10 +632,9 @@ class Sim:
         # circuits always get a complex128 input: numqi's apply_control_n_gate writes into a copy of the input and silently drops the
         # imaginary part for float64 states (a C03-type input-dtype issue, outside C11; see DESIGN §5.4)
         psi0 = born.make_state(op['prep']['kind'], w, op['prep']['seed']).astype(np.complex128)
+        psi0_keep = psi0.copy()
         picks = list(op['picks'])
-        scripted = [x for x in self.desc if x[0] == 'measure' and x[3]]
-        for j, x in enumerate(scripted):
-            x[2].np_rng.script[:] = [picks[j % len(picks)]]
+        self.fill_scripts(picks)
 
         def run(q):
             if op.get('via') == 'torch':
@@ -590,8 +652,7 @@ class Sim:
                 _, npts = self.inj.count(lambda: run(psi0))
             except Exception as e:
                 raise Violation('unexpected_exception', 'Circuit.apply_state', f'{type(e).__name__}: {e}')
-            for j, x in enumerate(scripted):
-                x[2].np_rng.script[:] = [picks[j % len(picks)]]
+            self.fill_scripts(picks)
             world.cache_wipe()
             kk = min(int(flt['frac'] * npts), max(npts - 1, 0))
             try:
@@ -613,28 +674,54 @@ class Sim:
                 out = run(psi0)
             except Exception as e:
                 raise Violation('unexpected_exception', 'Circuit.apply_state', f'{type(e).__name__}: {e}')
-        # replay the run in the model, reading each MeasureGate's record at its own position
-        psi = psi0.astype(np.complex128)
+        if np.abs(psi0 - psi0_keep).max() > 0:
+            raise Violation('projection', 'Circuit.apply_state', 'the caller-owned input state was modified in place by the run (a later use of the same input sees a different state)')
+        # replay the run in the model. Scripted measure gates: the model *predicts* the outcome (scheduler pick applied to the
+        # model's own marginals); integer-seeded ones (numpy picks): the outcome is read from the gate's record, which is only
+        # possible when the gate object occurs once in the circuit.
+        psi = psi0_keep
         nm = 0
         outcomes = {}
+        last_pred = {}
+        occ = {}
+        for x in self.desc:
+            if x[0] == 'measure':
+                occ[id(x[2])] = occ.get(id(x[2]), 0) + 1
+        j = 0
         for x in self.desc:
             if x[0] == 'gate':
                 psi = model_apply(psi, x[1])
             elif x[0] == 'measure':
                 S, g, is_scripted = x[1], x[2], x[3]
-                if g.bitstr is None or g.probability is None:
-                    raise Violation('bookkeeping', 'MeasureGate', f'measure gate on {S} has no recorded bit string / probability after a run')
-                if tuple(g.index) != tuple(S):
-                    raise Violation('bookkeeping', 'MeasureGate', f'measure gate index {g.index} != {S} (after shift?)')
-                pick = picks[[id(y[2]) for y in scripted].index(id(g)) % len(picks)] if is_scripted else None
                 p = born.marginals(psi, S)
-                try:
-                    a = self.check_measurement_bookkeeping(psi, S, g, p, pick)
-                except Violation:
-                    raise
-                outcomes[id(g)] = [int(b) for b in g.bitstr]
+                if is_scripted:
+                    pick = picks[j % len(picks)]
+                    j += 1
+                    if np.any(np.abs(p - 1e-6) < 1e-9):
+                        self.bump('probe.floor_boundary_skip')
+                        return
+                    supp = np.nonzero(p > 1e-6)[0]
+                    a = int(supp[pick % len(supp)])
+                else:
+                    if occ[id(g)] != 1:
+                        self.bump('probe.shared_int_seeded_gate_skip')
+                        return
+                    if g.bitstr is None:
+                        raise Violation('bookkeeping', 'MeasureGate', f'measure gate on {S} has no recorded bit string after a run')
+                    a = 0
+                    for bb in g.bitstr:
+                        a = (a << 1) | int(bb)
+                    if len(g.bitstr) != len(S) or a >= len(p) or p[a] <= 1e-9:
+                        raise Violation('bookkeeping', 'MeasureGate', f'recorded outcome {g.bitstr} on S={S} has probability {p[a] if a < len(p) else None} at that point of the circuit')
+                bs = [(a >> (len(S) - 1 - t)) & 1 for t in range(len(S))]
+                outcomes[id(g)] = bs
+                last_pred[id(g)] = (S, g, p, bs, a)
                 psi = born.project(psi, S, a)
                 nm += 1
+                n = psi.shape[0].bit_length() - 1
+                self.cover['pairs'].add(f'{n}:{"".join(map(str, S))}')
+                self.cover['triples'].add(f'{n}:{"".join(map(str, S))}:{a}')
+                self.cover['compl_runs'].add(str(min(complement_runs(n, S), 3)))
             else:
                 _, gm, bit, U, cg = x
                 bs = outcomes.get(id(gm))
@@ -642,40 +729,29 @@ class Sim:
                     raise Violation('bookkeeping', 'MeasureGate', 'classical control before its measurement')
                 if bs[bit % len(bs)] == 1:
                     psi = born.apply_gate(psi, U, list(cg.index))
+        # every gate's record must describe its own (last) execution in this run, at its point of the circuit
+        for S, g, p, bs, a in last_pred.values():
+            if g.bitstr is None or g.probability is None:
+                raise Violation('bookkeeping', 'MeasureGate', f'measure gate on {S} has no recorded bit string / probability after a run')
+            if tuple(g.index) != tuple(S):
+                raise Violation('bookkeeping', 'MeasureGate', f'measure gate index {g.index} != {S} (after shift?)')
+            prob = np.asarray(g.probability)
+            if prob.shape != p.shape or prob.min() < 0 or abs(prob.sum() - 1) > TOL or np.abs(prob - p).max() > TOL:
+                raise Violation('bookkeeping', 'MeasureGate', f'recorded probabilities {np.round(prob, 6).tolist()} of the measure gate on {S} are not the Born marginals {np.round(p, 6).tolist()} of the state at that point of the circuit')
+            if [int(b) for b in g.bitstr] != bs:
+                raise Violation('bookkeeping', 'MeasureGate', f'recorded bit string {list(g.bitstr)} of the measure gate on {S} is not the outcome {bs} obtained at that point of the circuit')
+            self.checked += 1
+            self.bump('measurements_checked')
         out = np.asarray(out)
         if out.shape != psi.shape or np.abs(out - psi).max() > TOL:
-            raise Violation('bookkeeping', 'Circuit.apply_state', f'final state differs from the model run that uses the recorded outcomes (max dev {np.abs(out - psi).max() if out.shape == psi.shape else "shape"}); recorded bit strings/probabilities do not refer to the state at their point of the circuit')
+            raise Violation('bookkeeping', 'Circuit.apply_state', f'final state differs from the model run with the outcomes obtained at each measure gate (max dev {np.abs(out - psi).max() if out.shape == psi.shape else "shape"}): classical control / projection did not use the measurement made at that point of the circuit')
         self.log.add('run', w, [outcomes[id(x[2])] for x in self.desc if x[0] == 'measure'], np.round(out, 9) + 0.0)
         self.bump('circuit_runs')
         if nm >= 2:
             self.bump('circuit_runs_with_2plus_measures')
+        if any(v > 1 for v in occ.values()):
+            self.bump('circuit_runs_with_shared_measure_gate')
         self.shape.append('r')
-
-    def check_measurement_bookkeeping(self, psi, S, g, p, pick):
-        api = 'MeasureGate'
-        prob = np.asarray(g.probability)
-        if prob.shape != p.shape or prob.min() < 0 or abs(prob.sum() - 1) > TOL or np.abs(prob - p).max() > TOL:
-            raise Violation('bookkeeping', api, f'recorded probabilities {np.round(prob, 6).tolist()} of the measure gate on {S} are not the Born marginals {np.round(p, 6).tolist()} of the state at that point of the circuit')
-        bs = [int(b) for b in g.bitstr]
-        if len(bs) != len(S) or any(b not in (0, 1) for b in bs):
-            raise Violation('bookkeeping', api, f'recorded bit string {g.bitstr} malformed for S={S}')
-        a = 0
-        for b in bs:
-            a = (a << 1) | b
-        if p[a] <= 1e-9:
-            raise Violation('bookkeeping', api, f'recorded outcome {bs} on S={S} has probability {p[a]:.3g} at that point of the circuit')
-        if pick is not None:
-            supp = np.nonzero(prob > 1e-6)[0]
-            exp = int(supp[pick % len(supp)])
-            if exp != a:
-                raise Violation('bookkeeping', api, f'scheduler chose outcome {exp} for the measure gate on {S}, recorded bit string {bs} encodes {a}')
-        n = psi.shape[0].bit_length() - 1
-        self.cover['pairs'].add(f'{n}:{"".join(map(str, S))}')
-        self.cover['triples'].add(f'{n}:{"".join(map(str, S))}:{a}')
-        self.cover['compl_runs'].add(str(min(complement_runs(n, S), 3)))
-        self.checked += 1
-        self.bump('measurements_checked')
-        return a
 
     def step(self, world, i, op):
         k = op['op']
